@@ -59,6 +59,9 @@ def build_cases(tier):
     C.append(T('type_assert_iface', 'type stringer interface{ String() string }\ntype named int\nfunc (n named) String() string { return "named" }\n',
                'var v interface{}\nswitch NondetRange(0, 0, 3) {\ncase 0:\n\tv = 5\ncase 1:\n\tv = "s"\ncase 2:\n\tv = named(3)\n}\ns, ok := v.(stringer)\nprintln("ok", ok)\nif ok {\n\tprintln("s", s.String())\n}\nprintln("t", v.(stringer) != nil)',
                lambda inp: [('(= in_0 2)', [('ok', ['true']), ('s', ['named']), ('t', ['true'])], 'normal'), ('(not (= in_0 2))', [('ok', ['false'])], ('panic', 'interface conversion'))]))
+    # the SAME boxed value on both sides: an uncomparable dynamic type still panics (no identity shortcut), also inside structs / arrays / switch
+    C.append(T('uncomparable_same_object', 'type holder struct{ v interface{} }\n', 'var a interface{} = []int{1}\nb := a\nm := map[string]int{}\nvar c interface{} = m\nh1 := holder{a}\nh2 := holder{a}\nk := NondetRange(0, 0, 4)\nprintln("s")\nswitch k {\ncase 0:\n\tprintln("e", a == b)\ncase 1:\n\tprintln("e", c == c)\ncase 2:\n\tprintln("e", h1 == h2)\ncase 3:\n\tswitch a {\n\tcase b:\n\t\tprintln("e", true)\n\t}\ncase 4:\n\tvar n interface{}\n\tprintln("e", n == n, a != nil)\n}',
+               lambda inp: [('(< in_0 4)', [('s', [])], ('panic', 'comparing uncomparable type')), ('(= in_0 4)', [('s', []), ('e', ['true', 'true'])], 'normal')]))
     C.append(T('uncomparable', '', 'var a, b interface{}\nswitch NondetRange(0, 0, 2) {\ncase 0:\n\ta, b = 1, 1\ncase 1:\n\ta, b = []int{1}, []int{1}\ncase 2:\n\ta, b = []int{1}, 2\n}\nprintln("a")\nprintln("e", a == b)',
                lambda inp: [('(= in_0 0)', [('a', []), ('e', ['true'])], 'normal'), ('(= in_0 2)', [('a', []), ('e', ['false'])], 'normal'),
                             ('(= in_0 1)', [('a', [])], ('panic', 'comparing uncomparable type'))]))
